@@ -87,7 +87,7 @@ func (c *Ctx) pureRng() *rand.Rand {
 var volatileOps = map[string]bool{"GcsBuilder": true, "BuilderHist": true, "Robust": true, "CertPair": true}
 
 func (c *Ctx) remember(a, e Event, dur time.Duration) {
-	if volatileOps[gName(a, "op")] {
+	if volatileOps[gName(a, "op")] || a["limit"] != nil {
 		return
 	}
 	c.pureSeen++
